@@ -32,9 +32,8 @@ PINS = {
     'collections.py::Track.__init__': '01f0c36a2b9a4fbb',            # SrcColl: `type(self)(xs)` is the model's `rewrap`
     'collections.py::CollectionBase.__init__': '998def96113cc433',
     'utils/functions.py::is_sub_list': 'a65933a1f69295ee',            # SrcRelate: the model's `isSubList`
-    '_geometry.py::do_edges_intersect': 'c6c432c7d6b4dfad',
     '_base.py::BaseShapeProtocol.copy': '0da86b9aedc16b8e',            # SrcMut: abstract in the protocol (= the model's `copy`)
-    '_geometry.py::ensure_edge_bounds': 'a705a05bf476cf50',                    # SrcCalc: the model's `ensureEdge`          # SrcRelate: the model's sweep (tied by C02's streams)
+    '_geometry.py::ensure_edge_bounds': 'a705a05bf476cf50',                    # SrcCalc: the model's `ensureEdge` (SrcSweep translates it)
 }
 
 
@@ -566,7 +565,8 @@ def track_unit():
 # every shape is a `GV.Shape`; the static tag of the argument (multi / point-like / polygon-like / line-like) picks the
 # instance.  What the logic *uses* is abstract: `edgesOf` (`edges()`), `segsOf` (`segments`), `cc` (`coord in shape`,
 # `contains_coordinate`), `tc` (`_touches_coordinate`), `holesOf`, `cen` (`centroid`), `rs ri` (the recursive calls on a
-# member of a multi-shape argument).  `do_edges_intersect` is the model's sweep (pinned; tied by C02's own streams).
+# member of a multi-shape argument).  `do_edges_intersect` is read as the model's sweep: no longer pinned — SrcSweep translates
+# it and Props/C02SrcSweep proves the translation equal to that sweep (`doEdgesIntersect_eq_model`).
 
 def relate_unit():
     src = py2lean.Source(_repo('structures.py'))
@@ -644,7 +644,7 @@ def relate_unit():
             ('PolyS', 'holes'): ('(holesOf {})', 'List Hole')}
     return Unit('SrcRelate', src, 'GV.Src.Relate', ['GeoVerif.Model.Relate', 'GeoVerif.Model.PyPrelude'], insts,
                 {'PolyS': P, 'LineS': 'GeoLineString', 'PtS': 'GeoPoint'}, attr_types=attr, abstract=abstract,
-                pins={k: PINS[k] for k in ('_geometry.py::do_edges_intersect', 'utils/functions.py::is_sub_list')},
+                pins={k: PINS[k] for k in ('utils/functions.py::is_sub_list',)},
                 intrinsics={'do_edges_intersect': sweep, 'is_sub_list': sub_list},
                 hooks={'isinstance': isinstance_hook, 'keywords': lambda tr, e: True},
                 ctx_params=[('edgesOf', 'GV.Shape → List (List GV.Edge)'), ('segsOf', 'GV.Shape → List GV.Edge'),
@@ -1527,6 +1527,71 @@ def eq_unit():
                 externals=_time_externals())
 
 
+# ----------------------------------------------------------------------------------------------------------
+# geostructures/_geometry.py :: do_bounds_overlap, ensure_edge_bounds, find_line_intersection, do_edges_intersect   (C02)
+#
+# a coordinate is the exact pair `GV.Pt` (lon, lat) — no z / m, so `to_float()` is that pair (pinned); floats are exact
+# rationals, so `round_half_up(x, 10)` is `x` (§3: the model drops the rounding; only the literal precision 10 is read so);
+# `Coordinate(x, y)` is the pair handed to the constructor (normalisation is C08's subject; with `_bounded=False` it is
+# exactly that pair).  The nested functions (`det`, `get_line_bounds`, `_create_events`) are lifted to definitions of their
+# own, the local class `_Event` to a structure with its `__lt__` / `__eq__` / `__hash__`; `events.sort()` is the stable
+# merge sort that asks only `b < a`; the active `set` is the list of its elements without `__eq__`-duplicates
+# (`GV.Py.setAdd` / `setDiscard`); the group labels 'a' / 'b' are read as `false` / `true` (the model's encoding).
+
+PINS.setdefault('coordinates.py::Coordinate.to_float', 'b613877e945e9836')     # SrcSweep: (longitude, latitude) of a coordinate without z / m
+
+
+def sweep_unit():
+    src = py2lean.Source(_repo('_geometry.py'))
+    SEG = 'Prod Pt Pt'
+    insts = [
+        Inst('do_bounds_overlap', 'doBoundsOverlap', [('bounds1', 'Prod R R'), ('bounds2', 'Prod R R')], 'Bool'),
+        Inst('ensure_edge_bounds', 'ensureEdgeBounds', [('coord1', 'Pt'), ('coord2', 'Pt')], SEG),
+        Inst('find_line_intersection', 'findLineIntersection', [('line1', SEG), ('line2', SEG)], 'Opt Prod Pt Bool'),
+        Inst('do_edges_intersect', 'doEdgesIntersect', [('edges_a', 'List ' + SEG), ('edges_b', 'List ' + SEG)], 'Bool'),
+    ]
+    A = py2lean.ast
+
+    def rnd(tr, args):
+        if [a.typ for a in args] != ['R', 'Int'] or args[1].text != '(10 : Int)':
+            raise Unsupported('round_half_up(' + ', '.join(f'{a.text}: {a.typ}' for a in args)[:80] + '): only `round_half_up(<float>, 10)` is '
+                              'read as the identity on exact rationals')
+        return Val(args[0].text, 'R')
+
+    def coordinate(tr, args):
+        if [a.typ for a in args] != ['R', 'R']:
+            raise Unsupported('Coordinate(' + ', '.join(a.typ for a in args) + ')')
+        return Val(f'({args[0].text}, {args[1].text})', 'Pt')
+
+    def kw(tr, e):
+        # `Coordinate(lon, lat, _bounded=False)`: the pair as given
+        return (isinstance(e.func, A.Name) and e.func.id == 'Coordinate' and [k.arg for k in e.keywords] == ['_bounded']
+                and isinstance(e.keywords[0].value, A.Constant) and e.keywords[0].value.value is False)
+
+    def sorted_hook(tr, e):
+        # `sorted([a, b])` of two floats: the pair (smaller, larger), swapped only if `b < a` (stable)
+        ok = len(e.args) == 1 and not e.keywords and isinstance(e.args[0], A.List) and len(e.args[0].elts) == 2 \
+            and not any(isinstance(x, A.Starred) for x in e.args[0].elts)
+        vals = [tr.expr(x) for x in e.args[0].elts] if ok else []
+        if not ok or [v.typ for v in vals] != ['R', 'R']:
+            raise Unsupported(f'`{A.unparse(e)[:80]}`: only `sorted([<float>, <float>])` is read (as `GV.Py.sort2`)')
+        return Val(f'(GV.Py.sort2 {vals[0].text} {vals[1].text})', 'Prod R R')
+
+    def local_type(qual, name):
+        return {('do_edges_intersect._create_events', '_events'): 'List doEdgesIntersect.Event',
+                ('do_edges_intersect', 'active_events'): 'Set doEdgesIntersect.Event'}.get((qual, name))
+
+    attr = {('Pt', 'longitude'): ('{}.1', 'R'), ('Pt', 'latitude'): ('{}.2', 'R')}
+    abstract = {('Pt', 'to_float', ()): ('{0}', 'Prod R R')}
+    return Unit('SrcSweep', src, 'GV.Src.Sweep', ['GeoVerif.Model.Sweep', 'GeoVerif.Model.PySeq'], insts, {},
+                attr_types=attr, abstract=abstract,
+                pins={'coordinates.py::Coordinate.to_float': PINS['coordinates.py::Coordinate.to_float']},
+                intrinsics={'round_half_up': rnd, 'Coordinate': coordinate},
+                hooks={'isinstance': lambda typ: None, 'prod_tuples': True, 'join_ifs': True, 'map_comprehensions': True,
+                       'group_labels': {'a': ('false', 'Bool'), 'b': ('true', 'Bool')}, 'always_truthy': ('Prod Pt Bool',),
+                       'local_type': local_type, 'sorted': sorted_hook, 'keywords': kw, 'opt_tests_as_issome': True, 'local_defs': True})
+
+
 UNITS = {'SrcTime': time_unit, 'SrcBase': base_unit, 'SrcMulti': multi_unit, 'SrcColl': coll_unit, 'SrcPip': pip_unit,
          'SrcMember': member_unit, 'SrcTrack': track_unit, 'SrcRelate': relate_unit, 'SrcCoord': coord_unit,
          'SrcCurved': curved_unit, 'SrcCalc': calc_unit}
@@ -1538,6 +1603,7 @@ UNITS['SrcBounds'] = bounds_unit
 UNITS['SrcMut'] = mut_unit
 UNITS['SrcGeohash'] = geohash_unit
 UNITS['SrcEq'] = eq_unit
+UNITS['SrcSweep'] = sweep_unit
 
 
 def render(name):
